@@ -48,7 +48,12 @@ EvReset ==  \* a fresh server instance
   /\ UNCHANGED devs
 
 (* what the client received is what the server computed for that request (C05) *)
-ClientGot(r, sr) == sr.t = "none" \/ r = sr
+OneLine(b) == [i \in 1..Len(b) |-> IF b[i] \in {10, 13} THEN 32 ELSE b[i]]
+ClientGot(r, sr) ==
+  \/ sr.t = "none"
+  \/ r = sr
+  \/ r.t = "err" /\ sr.t = "err"                              \* wording is not compared
+  \/ r.t = "st" /\ sr.t = "st" /\ r.v = OneLine(sr.v)
 
 EvCmd ==
   /\ Ev.k = "cmd"
@@ -59,6 +64,7 @@ EvCmd ==
             /\ Match(o.r, Ev.r)
             /\ ("sr" \in DOMAIN Ev => ClientGot(Ev.r, Ev.sr))
             /\ ("sargv" \notin DOMAIN Ev)      \* the server executed exactly the request that was sent
+            /\ ("unexecuted" \notin DOMAIN Ev) \* ... and it executed every request that was sent
             /\ S' = o.S
             /\ devs' = devs \cup o.dv
 
@@ -88,6 +94,15 @@ EvQuiesce ==
   /\ \A c \in DOMAIN S.conns : S.conns[c].inbox = <<>>
   /\ UNCHANGED <<S, devs>>
 
+(* raw bytes that are not a well-formed command frame, sent after the pipeline:
+   violation / badcommand : the first thing the server says must be an error (closing afterwards is fine)
+   inline                 : an inline command is served or refused, but not ignored *)
+EvRaw ==
+  /\ Ev.k = "raw"
+  /\ Len(Ev.rs) >= 1
+  /\ (Ev.kind \in {"violation", "badcommand"} => Ev.rs[1].t = "err")
+  /\ UNCHANGED <<S, devs>>    \* generators use inline commands without effect on later checks (connection ends here)
+
 EvNote == Ev.k = "note" /\ UNCHANGED <<S, devs>>
 
 EvDropped ==  \* the client saw the server close the connection
@@ -98,7 +113,7 @@ EvDropped ==  \* the client saw the server close the connection
 TraceNext ==
   /\ l <= N
   /\ l' = l + 1
-  /\ (EvOpen \/ EvClose \/ EvReset \/ EvCmd \/ EvNote \/ EvDropped \/ EvUnlogged \/ EvChk \/ EvPush \/ EvQuiesce \/ EvGone)
+  /\ (EvOpen \/ EvClose \/ EvReset \/ EvCmd \/ EvNote \/ EvDropped \/ EvUnlogged \/ EvChk \/ EvPush \/ EvQuiesce \/ EvGone \/ EvRaw)
   /\ IF l > TLCGet(1) THEN TLCSet(1, l) /\ TLCSet(3, S') ELSE TRUE   \* deepest matched event (last conjunct!)
 
 TraceSpec == TraceInit /\ [][TraceNext]_vars
